@@ -1,6 +1,6 @@
 """C18 — the periodic progress runner fires only while running; quiescent after Stop."""
 ID = "C18"
-PROPS = ["F1Verif.Props.C18", "F1Verif.Props.FactsC18", "F1Verif.Props.RefineC18", "F1Verif.Props.RefineC19R"]
+PROPS = ["F1Verif.Props.C18", "F1Verif.Props.FactsC18", "F1Verif.Props.RefineC18", "F1Verif.Props.RefineC19R", "F1Verif.Props.RefineC18L"]
 RULE = ("engine B on the real raterun.Runner: Stop called while the function is executing (gated), while a due tick is "
         "parked at the raterun.dispatch yield point, between ticks, and cancellation instead of Stop — Stop must not return "
         "before the function has, nothing may be invoked afterwards; a slow function keeping a tick pending across a "
